@@ -42,6 +42,23 @@ def plan(tier):
 # ------------------------------------------------------------------ generator
 
 def gen_history(rng, nops, uid0=0, write_only=False):
+    ops = _gen_history(rng, nops, uid0, write_only)
+    if rng.random() < 0.3:
+        ops = with_other_store(rng, ops, rng.choice([3, 8, 20]))
+    return ops
+
+
+def with_other_store(rng, ops, every):
+    """the same history while another lazily-committing store of the process writes, reads or is reopened now and then"""
+    out = []
+    for i, op in enumerate(ops):
+        out.append(op)
+        if i % every == every - 1:
+            out.append(dict(op="other", what=rng.choice(["insert", "insert", "read", "read", "reopen"])))
+    return out
+
+
+def _gen_history(rng, nops, uid0=0, write_only=False):
     base, unit = rand_grid(rng)
     uid = [uid0]
 
@@ -110,7 +127,14 @@ def gen_history(rng, nops, uid0=0, write_only=False):
 STORM_KINDS = ["delete", "replace", "replace_last", "insert", "delete_missing", "upsert1", "upsert3", "singles", "big-bucket"]
 
 
-def storm(rng, kind):
+def storm(rng, kind, other=None):
+    ops = _storm(rng, kind)
+    if other:
+        ops = with_other_store(rng, ops, other)     # another store of the process commits every `other` operations
+    return ops
+
+
+def _storm(rng, kind):
     """70-200 single-event writes of one kind with nothing in between that could flush: only the count threshold
     (or the age rule) can bound what a crash loses."""
     ops = gen_history(rng, rng.randrange(3, 10))
@@ -152,7 +176,8 @@ def gen_case(rng, ctx):
     ctx.count("cases_generated")
     if n_gen < 2:
         # every run starts with 32 storms (16 workers x 2) that cover each write kind four times on the lazy store
-        return dict(kind="inproc", backend="sqlite", ops=storm(rng, STORM_KINDS[(2 * ctx.widx + n_gen) % len(STORM_KINDS)]))
+        return dict(kind="inproc", backend="sqlite", ops=storm(rng, STORM_KINDS[(2 * ctx.widx + n_gen) % len(STORM_KINDS)],
+                                                               other=20 if n_gen == 1 else None))
     if n_gen == 2 and ctx.widx % 2 == 0:
         # a real crash with megabytes of event data still uncommitted (fewer than 50 buffered writes, but far more than
         # SQLite's page cache holds): whatever has reached the file by then must still be undone by the recovery
@@ -179,7 +204,7 @@ def gen_case(rng, ctx):
         return dict(kind="real", backend=backend, ops=ops, mode=rng.choice(["sigkill", "sigkill", "sigkill", "_exit", "exit", "parentkill"]),
                     every=ctx.tier == "thorough", k=rng.randrange(1, 200), delay_us=rng.randrange(0, 3000))
     if r < 0.4:
-        ops = storm(rng, rng.choice(STORM_KINDS))
+        ops = storm(rng, rng.choice(STORM_KINDS), other=rng.choice([None, None, 10, 30]))
     elif r < 0.5:
         ops = gen_history(rng, rng.randrange(200, 400), write_only=True)
     else:
@@ -334,7 +359,7 @@ def may_remove(op, desc, row):
     """May this operation make `row` disappear from the writer's view? (rows are ('B', id, …) / ('E', bucket, uid, …))"""
     kind = op["op"]
     b = op.get("b")
-    if desc is None or kind in ("insert", "bulk", "read", "delete_missing", "create_bucket", "fail"):
+    if desc is None or kind in ("insert", "bulk", "read", "delete_missing", "create_bucket", "fail", "other"):
         return False
     if kind == "update_bucket":
         return row[0] == "B" and row[1] == b
